@@ -633,7 +633,42 @@ func checkDumpSkipsBadEntries(c *Ctx, limit int64) {
 			}
 		}
 	})
-	c.check(flushBefore && skipBig, "block-never-exceeds-reader-limit", wd.Pos(), "a pending block is written before an entry that would overflow it; an entry bigger than a block is left out",
+	// D45: when the writer bounds every message (compressed, <= 65535 bytes) a block cannot overflow either, as long as it
+	// is written once it holds `limit - one maximal entry` bytes: the order of test and append does not matter then
+	boundedEntries := false
+	{
+		var pack *ssa.Call
+		eachInstrDeep(wd, func(f *ssa.Function, in ssa.Instruction) {
+			if cl, ok := in.(*ssa.Call); ok && callName(cl) == "(*github.com/miekg/dns.Msg).Pack" {
+				pack = cl
+			}
+		})
+		if pack != nil {
+			if wl := dumpWriterMsgLimit(pack); wl >= 0 && wl <= 65535 {
+				const maxEntry = 65535 + 1024 // a maximal message plus key and protobuf overhead
+				eachInstr(pack.Parent(), func(in ssa.Instruction) {
+					iff, ok := in.(*ssa.If)
+					if !ok {
+						return
+					}
+					for _, truth := range []bool{true, false} {
+						g := guard{Cond: iff.Cond, Truth: truth, If: iff}
+						cm, ok := g.asCmp()
+						if !ok || cm.Op != token.GEQ {
+							continue
+						}
+						if lc, isLen := cm.X.(*ssa.Call); isLen && callName(lc) == "builtin:len" {
+							continue // a number of entries, not of bytes
+						}
+						if k, isC := constInt(cm.Y); isC && k+maxEntry <= limit {
+							boundedEntries = true
+						}
+					}
+				})
+			}
+		}
+	}
+	c.check((flushBefore && skipBig) || boundedEntries, "block-never-exceeds-reader-limit", wd.Pos(), "a pending block is written before an entry that would overflow it; an entry bigger than a block is left out (or: every message is bounded and the block is written with room for one more entry)",
 		"a block can exceed the length readDump accepts (the size test runs only after the entry was appended, or a single oversized entry is written anyway): a 64k response that used name compression is packed without it and can take more than a block; the intact dump then fails to load with 'block length is big'")
 }
 
